@@ -279,7 +279,8 @@ Definition guard (g : grid) : M unit :=
 
 Definition t_prop : M unit :=
   c <- is_cached S_t ;; if c then ret tt else setslot S_t (Some TI).
-Definition tau_prop : M unit := setslot S_tau (Some TI).
+(* tau: always self.t[-1] since commit f6ab3ac, i.e. reading tau caches _t *)
+Definition tau_prop : M unit := t_prop ;;; setslot S_tau (Some TI).
 
 Definition diagonalize : M unit :=
   c1 <- is_cached S_eigvals ;; c2 <- is_cached S_eigvecs ;; c3 <- is_cached S_propagators ;;
